@@ -85,6 +85,11 @@ structure Ctx where
   nKnown : Nat
   /-- `HighlightIter::language_name` (the root configuration's language) -/
   rootLang : Nat
+  /-- how `Highlighter::highlight` sets up the initial layers: `false` = the unchanged code (the layers
+  in the order `HighlightIterLayer::new` returned them, then ONE `sort_layers`, which only places the
+  first layer); `true` = `fixes/C17-initial-layer-order.diff` (the further layers go through
+  `insert_layer`, so `layers[1..]` is ordered).  Selected by a probe of the real code. -/
+  initInsert : Bool := false
 
 structure FLayer where
   lang : Nat
@@ -321,9 +326,17 @@ def sumW (f : FLayer → Nat) : List FLayer → Nat
   | [] => 0
   | l :: r => f l + sumW f r
 
+/-- The layer vector `Highlighter::highlight` starts with (before its `sort_layers`). -/
+def initLayers (cx : Ctx) (top : List Nat) : List FLayer :=
+  if cx.initInsert then
+    match top.filterMap (mkLayer cx) with
+    | [] => []
+    | l0 :: r => r.foldl insertLayer [l0]
+  else top.filterMap (mkLayer cx)
+
 /-- `Highlighter::highlight` + draining the iterator. -/
 def mergeFull (cx : Ctx) (top : List Nat) (n : Nat) : List Ev × Bool :=
-  let layers := sortLayers (top.filterMap (mkLayer cx))
+  let layers := sortLayers (initLayers cx top)
   runM cx n (sumW (layerW cx) layers + 1) { layers := layers }
 
 end TsVerif.C17.Full
